@@ -150,6 +150,27 @@ impl BinaryDeserializer for Dedup {
         Ok(Dedup(desert::DeduplicatedString::deserialize(context)?))
     }
 }
+impl PartialEq for Dedup {
+    fn eq(&self, o: &Self) -> bool {
+        self.0 .0 == o.0 .0
+    }
+}
+impl Eq for Dedup {}
+impl std::hash::Hash for Dedup {
+    fn hash<H: std::hash::Hasher>(&self, h: &mut H) {
+        self.0 .0.hash(h)
+    }
+}
+impl PartialOrd for Dedup {
+    fn partial_cmp(&self, o: &Self) -> Option<std::cmp::Ordering> {
+        Some(self.cmp(o))
+    }
+}
+impl Ord for Dedup {
+    fn cmp(&self, o: &Self) -> std::cmp::Ordering {
+        self.0 .0.cmp(&o.0 .0)
+    }
+}
 impl Bridge for Dedup {
     fn ty() -> Ty {
         Ty::DedupStr
